@@ -266,6 +266,11 @@ def evaluate(run, lines, meta, exe, drv):
         st, v, name = meta[cid]
         case = {'schema': st, 'value': v, 'mutation': name}
         valid, resolved, datum, dec, so, cont, cread = o[3], o[4], o[5], o[6], o[7], o[8], o[9]
+        # a known finding is a behaviour of the modelled (unchanged) code: validation and the written bytes must be
+        # the ones the faithful model gives, otherwise the failure is reported unclassified
+        m0 = parse(model.get(cid, '(missing)'))
+        faithful = tag(m0) == 'ok' and (m0[1][1] if tag(m0[1]) == 'ok' else tag(m0[1])) == valid and \
+            tag(m0[3]) == tag(datum) and (tag(datum) != 'ok' or m0[3][1] == datum[1])
         if tag(valid) == 'panic' or any(tag(x) == 'panic' for x in (datum, so, cont)):
             run.fail('panic', 'validation or a writer panicked', case)
             continue
@@ -284,8 +289,8 @@ def evaluate(run, lines, meta, exe, drv):
             elif tag(cont) != 'ok' or tag(cread) != 'items' or len(cread) != 2 or tag(cread[1]) != 'ok' or canon(cread[1][1], True) != canon(dec[1], True):
                 bad = 'container writer/reader disagrees with the datum writer (%s / %s)' % (show(cont)[:40], show(cread)[:80])
             if bad:
-                cls = classify(name, st)
-                if cls is None and tag(dec) == 'ok' and dec[2] == '#' and same_info(parse(v), dec[1], drop=True):
+                cls = classify(name, st) if faithful else None
+                if cls is None and faithful and tag(dec) == 'ok' and dec[2] == '#' and same_info(parse(v), dec[1], drop=True):
                     cls = 'bare-record-encoded-as-earlier-variant'
                 run.fail(cls or ('accepted-not-written:' + name), bad, case)
             else:
